@@ -8,7 +8,7 @@ from .core import Script
 class LineStage:
     """scripts -> (implementation driver, Lean driver) -> three-way diff"""
 
-    def __init__(self, name, scripts, impl="rs", features=(), normalize=None, max_minimise=3, impl_exe=None, oracle=None):
+    def __init__(self, name, scripts, impl="rs", features=(), normalize=None, max_minimise=3, impl_exe=None, oracle=None, profile=None):
         self.name = name
         self.scripts = scripts
         self.impl = impl
@@ -17,12 +17,13 @@ class LineStage:
         self.max_minimise = max_minimise
         self.impl_exe = impl_exe
         self.oracle = oracle
+        self.profile = profile
 
     def build_impl(self):
         if self.impl_exe:
             return True, self.impl_exe, ""
         if self.impl == "rs":
-            return core.build_rs(self.features)
+            return core.build_rs(self.features, self.profile) if self.profile else core.build_rs(self.features)
         if self.impl == "rs_min":
             return core.build_rs_min(self.features)
         if self.impl == "c":
